@@ -233,11 +233,11 @@ Proof.
     pose proof (srel_len _ _ Hst) as Hlen.
     destruct Hregs as [(_ & Hla & Hin)|(Hq2 & _)]; [|lia].
     exists [], wr, n. split; [reflexivity|]. split.
-    + constructor; cbn [set_la set_stack stack la lasym qla qlasym input trace]; auto.
+    + constructor; cbn [set_shifts set_la set_stack stack la lasym qla qlasym input trace]; auto.
       * apply srel_skipn; auto. lia.
       * apply path_skipn. exact Hpath.
       * apply snodes_skipn. exact Htr.
-    + cbn [set_la qla]. lia.
+    + cbn [set_shifts set_la qla]. lia.
   - destruct (la s =? EOF)%Z; auto.
     destruct (core_read _ _ _ HC) as (s' & Hrd & Hq' & HC'). rewrite Hrd.
     rewrite Hq in HC'. cbn [Z.eqb Pos.eqb] in HC'.
@@ -246,6 +246,26 @@ Proof.
     destruct IH as (d & wr1 & n & Hwr & HC1 & Hq1).
     destruct (tl_split wr) as (d0 & Hd0). exists (d0 ++ d), wr1, n.
     rewrite <- app_assoc, <- Hwr. auto.
+Qed.
+
+Lemma drop_if_stuck_spec f s stk wr : Core s stk wr -> qla s = (-1)%Z ->
+  match drop_if_stuck tb f s with
+  | Continue s1 => exists d wr1, wr = d ++ wr1 /\ Core s1 stk wr1 /\ qla s1 = (-1)%Z
+  | Fuel | Reject _ => True
+  | _ => False
+  end.
+Proof.
+  intros HC Hq. unfold drop_if_stuck.
+  destruct (shifts s =? rec_shifts s)%Z.
+  - destruct (la s =? EOF)%Z; auto.
+    destruct (core_read _ _ _ HC) as (s' & Hrd & Hq' & HC'). rewrite Hrd.
+    rewrite Hq in HC'. cbn [Z.eqb Pos.eqb] in HC'.
+    pose proof (skip_errors_spec f s' stk (tl wr) HC') as Hsk.
+    destruct (skip_errors tb f s') as [s1| | | |]; auto.
+    destruct Hsk as (d & wr1 & Hwr & HC1 & Hq1).
+    destruct (tl_split wr) as (d0 & Hd0). exists (d0 ++ d), wr1.
+    rewrite <- app_assoc, <- Hwr. auto.
+  - exists [], wr. auto.
 Qed.
 
 Section Word.
@@ -266,20 +286,22 @@ Lemma inv_shift s stk wc wr v b :
   (0 <= v)%Z -> Z.to_nat (la s) <> eof -> Z.to_nat v < nst ->
   past_ok g c (topst stk) (Z.to_nat v) (T (Z.to_nat (la s))) = true ->
   exists s2,
-    read_token tb (set_stack s ({| i_state := v; i_sym := lasym s; i_bounds := b |} :: stack s)) = Some s2 /\
+    read_token tb (shift_state s v b) = Some s2 /\
     RInv s2.
 Proof.
   intros Hw HC HE Hv Hne Hlt Hpast.
   remember (Z.to_nat (la s)) as t eqn:Ht.
-  set (s1 := set_stack s ({| i_state := v; i_sym := lasym s; i_bounds := b |} :: stack s)).
-  assert (HC1 : Core s1 ((Z.to_nat v, Leaf (t, 0)) :: stk) wr).
+  assert (HC1 : Core (shift_state s v b) ((Z.to_nat v, Leaf (t, 0)) :: stk) wr).
   { destruct HC as [Hst Hpath Hwr Hsym Hregs Htr].
-    constructor; cbn [s1 set_stack stack la lasym qla qlasym input trace]; auto.
-    - constructor; auto. cbn [i_state]. rewrite Z2Nat.id; lia.
-    - econstructor; eauto. constructor. }
+    unfold shift_state. destruct (la s =? ERROR)%Z;
+      (constructor; cbn [set_shifts set_stack stack la lasym qla qlasym input trace]; auto;
+       [constructor; auto; cbn [i_state]; rewrite Z2Nat.id; lia
+       |econstructor; eauto; constructor]). }
   destruct (core_read _ _ _ HC1) as (s2 & Hrd & Hq2 & HC2).
   exists s2. split; auto.
-  change (qla s1) with (qla s) in HC2.
+  assert (Hqs1 : qla (shift_state s v b) = qla s)
+    by (unfold shift_state; destruct (la s =? ERROR)%Z; reflexivity).
+  rewrite Hqs1 in HC2.
   assert (Hy : ytypes ((Z.to_nat v, Leaf (t, 0)) :: stk) = ytypes stk ++ [t]).
   { unfold ytypes. simpl. rewrite map_app. reflexivity. }
   unfold pend in HE.
@@ -308,7 +330,8 @@ Lemma inv_reduce f s stk wc wr top v pr a :
   nth_error g (Z.to_nat (- v)) = Some pr ->
   item (topst stk) (Z.to_nat (- v)) (length (rhs pr)) a ->
   exists s' ns, pstep tb eb true discard f s = Continue s' /\ RInv s' /\
-    (la s' = la s /\ lasym s' = lasym s /\ qla s' = qla s /\ qlasym s' = qlasym s) /\
+    (la s' = la s /\ lasym s' = lasym s /\ qla s' = qla s /\ qlasym s' = qlasym s /\
+     input s' = input s /\ shifts s' = shifts s /\ rec_shifts s' = rec_shifts s) /\
     length (rhs pr) < length (stack s) /\
     map i_state (stack s') = ns :: skipn (length (rhs pr)) (map i_state (stack s)) /\
     exists exposed rest',
@@ -335,14 +358,14 @@ Proof.
   destruct (val_goto_of g tb c nterm Hval _ _ _ Hlt' Hg) as (Hs' & Hpast & Hgf).
   rewrite <- Htop' in Hgf.
   destruct (pstep_reduce_gen tb eb discard true f s top v _ _ _ top' (Z.of_nat s') Hpk Hf Hna Hv Htc Hrule Hact)
-    as (b & s1 & Hps & H1 & H2 & H3 & H4 & H5 & H6 & H7).
+    as (b & s1 & Hps & H1 & H2 & H3 & H4 & H5 & H6 & H7 & H8 & H9).
   - lia.
   - rewrite Nat2Z.id. lia.
   - rewrite Nat2Z.id. exact Hpk'.
   - exact Hgf.
   - rewrite Hps. eexists. exists (Z.of_nat s'). split; [reflexivity|]. rewrite Nat2Z.id.
     split; [|split; [|split; [|split]]].
-    2:{ cbn [set_stack la lasym qla qlasym]. auto. }
+    2:{ cbn [set_stack la lasym qla qlasym input shifts rec_shifts]. repeat split; auto. }
     2:{ lia. }
     2:{ cbn [set_stack stack map i_state]. rewrite skipn_map. reflexivity. }
     2:{ rewrite skipn_map. destruct (skipn (length (rhs pr)) (stack s)) as [|t0 r]; [discriminate|].
@@ -413,11 +436,14 @@ Proof.
   pose proof (skip_errors_spec f s stk wr HC) as Hsk.
   destruct (skip_errors tb f s) as [s1| | | |]; auto.
   destruct Hsk as (d1 & wr1 & Hwr & HC1 & Hq1).
-  pose proof (recover_outer_spec f e s1 stk wr1 Hte HC1 Hq1) as Hro.
-  destruct (recover_outer tb f e s1) as [s2| | | |]; auto.
+  pose proof (drop_if_stuck_spec f s1 stk wr1 HC1 Hq1) as Hds.
+  destruct (drop_if_stuck tb f s1) as [s1'| | | |]; auto.
+  destruct Hds as (d1' & wr1' & Hwr' & HC1' & Hq1').
+  pose proof (recover_outer_spec f e s1' stk wr1' Hte HC1' Hq1') as Hro.
+  destruct (recover_outer tb f e s1') as [s2| | | |]; auto.
   destruct Hro as (d2 & wr2 & n & Hwr1 & HC2 & Hq2).
-  exists (skipn n stk), (wc ++ d1 ++ d2), wr2. split; [|split]; auto.
-  - rewrite Hw, Hwr, Hwr1, <- !app_assoc. reflexivity.
+  exists (skipn n stk), (wc ++ (d1 ++ d1') ++ d2), wr2. split; [|split]; auto.
+  - rewrite Hw, Hwr, Hwr', Hwr1, <- !app_assoc. reflexivity.
   - unfold pend at 1.
     destruct (qla s2 =? -1)%Z eqn:E; [apply Z.eqb_eq in E; contradiction|].
     destruct (syield_skipn n stk) as (y & Hy).
